@@ -166,7 +166,8 @@ static int p_kern;			/* sampling percentage for kernel calls */
 /* statistics */
 static long st_ticks, st_voice_solos, st_kernel_calls, st_fail, st_active_voice_ticks, st_multi_voice_ticks,
 	st_kern_cases, st_vol_cases, st_sum_cases, st_vt_cases, st_vt_skipped, st_ac_kernel_calls, st_filter_calls,
-	st_paula_calls, st_nonzero_words, st_wraps;
+	st_paula_calls, st_nonzero_words, st_wraps, st_one_frame_calls;
+static int g_tick_active;		/* voices the voice loop will look at in the current tick */
 static const char *g_modname = "?";
 
 /* spans recorded for the voice-tick case (solo re-run of the chosen voice) */
@@ -240,6 +241,8 @@ static void c14_kernel_call(kern_fp real, const char *name, int stereo, int kind
 		st_filter_calls++;
 	if (kind == 2)
 		st_paula_calls++;
+	if (count == 1 && g_tick_active >= 2)
+		st_one_frame_calls++;
 
 	if (g_first_seen[0] != vi) {
 		g_first_seen[0] = vi;
@@ -372,13 +375,13 @@ static void emit_vt(struct context_data *ctx, const struct snap *s0, const struc
 	}
 	for (i = 0; i < g_nspans; i++)
 		total += g_spans[i].count;
-	/* the sample ended within this tick: set_sample_end(…, 1) cleared FLAG_ACTIVE or reset the voice */
-	ended = ((a->fidx & FLAG_ACTIVE) && !(b->fidx & FLAG_ACTIVE)) || b->chn < 0;
-	if (ended && total < s->ticksize) {
+	/* The span loop only leaves a tick unfilled when the sample ended (one-shot, or a stopped
+	 * sample swap, which is excluded above): then do_anticlick ramps out over the rest and the
+	 * next volume ramps from 0.  A tick filled exactly has neither. */
+	ended = total < s->ticksize;
+	if (ended) {
 		acafter = s->ticksize - total;
 		stop = 1;
-	} else if (ended) {
-		/* ended exactly at the tick boundary: no ramp-out, no volume reset */
 	}
 	if (b->chn < 0) {
 		/* QUIRK_RSTCHN cleared the whole voice: the model's final state is not comparable */
@@ -432,6 +435,11 @@ static void tie_tick(struct context_data *ctx)
 	g_first_seen[0] = NULL;
 	snap_take(ctx, &s0);
 	nv = s0.nv;
+	g_tick_active = 0;
+	for (v = 0; v < nv; v++) {
+		if (s0.voices[v].chn >= 0)
+			g_tick_active++;
+	}
 
 	g_in_solo = 0;
 	real_softmixer(ctx);
@@ -657,6 +665,11 @@ static void random_cfg(struct cfg *c)
 	c->a500 = vrng_chance(25);
 	for (i = 0; i < XMP_MAX_CHANNELS; i++)
 		c->mute[i] = vrng_chance(10);
+	/* optional overrides (part of the replay record): C14_INTERP, C14_RATE */
+	if (getenv("C14_INTERP") != NULL)
+		c->interp = atoi(getenv("C14_INTERP"));
+	if (getenv("C14_RATE") != NULL)
+		c->rate = atoi(getenv("C14_RATE"));
 }
 
 static int module_len(const char *path)
@@ -708,7 +721,7 @@ static int mode_tie(uint64_t seed, int nframes, const char *path, int lowrate)
 	p_kern = 4;
 	st_ticks = st_voice_solos = st_kernel_calls = st_fail = st_active_voice_ticks = st_multi_voice_ticks = 0;
 	st_kern_cases = st_vol_cases = st_sum_cases = st_vt_cases = st_vt_skipped = st_ac_kernel_calls = 0;
-	st_filter_calls = st_paula_calls = st_nonzero_words = st_wraps = 0;
+	st_filter_calls = st_paula_calls = st_nonzero_words = st_wraps = st_one_frame_calls = 0;
 	printf("begin tie %s rate=%d fmt=%d interp=%d amp=%d mix=%d master=%d dsp=%d a500=%d pos=%d\n", path, c.rate,
 	       c.fmt, c.interp, c.amp, c.mix, c.master, c.dsp, c.a500, c.startpos);
 	g_tie = 1;
@@ -718,9 +731,9 @@ static int mode_tie(uint64_t seed, int nframes, const char *path, int lowrate)
 	}
 	g_tie = 0;
 	printf("tiestat %s ticks=%ld solos=%ld multi=%ld kernel_calls=%ld ac_calls=%ld filter_calls=%ld paula_calls=%ld "
-	       "nonzero_words=%ld fails=%ld sum=%ld vol=%ld kern=%ld vt=%ld vt_skipped=%ld\n", base_name(path), st_ticks,
+	       "one_frame_calls=%ld nonzero_words=%ld fails=%ld sum=%ld vol=%ld kern=%ld vt=%ld vt_skipped=%ld\n", base_name(path), st_ticks,
 	       st_voice_solos, st_multi_voice_ticks, st_kernel_calls, st_ac_kernel_calls, st_filter_calls, st_paula_calls,
-	       st_nonzero_words, st_fail, st_sum_cases, st_vol_cases, st_kern_cases, st_vt_cases, st_vt_skipped);
+	       st_one_frame_calls, st_nonzero_words, st_fail, st_sum_cases, st_vol_cases, st_kern_cases, st_vt_cases, st_vt_skipped);
 	close_ctx(x);
 	return 0;
 }
@@ -748,7 +761,7 @@ static int mode_twin(uint64_t seed, int nframes, const char *path)
 	cb.a500 = 0;
 	cb.master = vrng_chance(15) ? 0 : vrng_range(0, 200);
 	cb.smixvol = vrng_chance(30) ? 100 : vrng_range(0, 200);
-	cb.mix = vrng_range(-100, 100);
+	cb.mix = vrng_chance(15) ? 100 : vrng_chance(18) ? -100 : vrng_range(-100, 100);
 	len = module_len(path);
 	if (len <= 0) {
 		printf("skip %s\n", path);
@@ -1075,8 +1088,8 @@ static int mode_solosum(uint64_t seed, int nframes, const char *path)
 		       worst, c.rate, c.fmt, c.interp, c.amp, c.master, c.mix, c.startpos);
 	}
 	printf("solosumstat %s groups=%d channels=%d frames=%d compared=%ld clipped=%ld worst=%ld d0=%ld d1=%ld d2=%ld d3=%ld "
-	       "voice_limit_reached=%d maxused=%d maxvoc=%d beyond=%ld\n", base_name(path), ngroups, nchn, full.frames, compared,
-	       clipped, worst, hist[0], hist[1], hist[2], hist[3], evict, full.maxused, full.maxvoc, exceed);
+	       "voice_limit_reached=%d maxused=%d maxvoc=%d beyond=%ld rate=%d interp=%d\n", base_name(path), ngroups, nchn, full.frames, compared,
+	       clipped, worst, hist[0], hist[1], hist[2], hist[3], evict, full.maxused, full.maxvoc, exceed, c.rate, c.interp);
 	free(sum);
 	free(full.pcm);
 	return 0;
@@ -1099,7 +1112,7 @@ static int mode_sep(uint64_t seed, int nframes, const char *path)
 	c.a500 = vrng_chance(15);
 	for (i = 0; i < XMP_MAX_CHANNELS; i++)
 		c.mute[i] = 0;
-	c.mix = vrng_chance(30) ? 100 : vrng_range(1, 100);
+	c.mix = vrng_chance(45) ? 100 : vrng_range(1, 100);
 	len = module_len(path);
 	if (len <= 0) {
 		printf("skip %s\n", path);
@@ -1142,8 +1155,9 @@ static int mode_sep(uint64_t seed, int nframes, const char *path)
 			printf("oracle_fail separation:zero module=%s frames_with_L_ne_R=%ld first=%ld rate=%d interp=%d amp=%d "
 			       "pos=%d\n", path, bad_zero, first_zero, c.rate, c.interp, c.amp, c.startpos);
 	}
-	printf("sepstat %s applicable=%d mix=%d frames=%ld L_ne_R_frames=%ld surround=%d stereo_samples=%d\n", base_name(path),
-	       applicable, c.mix, rp.nsamples / 2, differ, rp.surround || rn.surround || r0.surround, rp.stereo_smp);
+	printf("sepstat %s applicable=%d mix=%d frames=%ld L_ne_R_frames=%ld surround=%d stereo_samples=%d rate=%d interp=%d\n",
+	       base_name(path), applicable, c.mix, rp.nsamples / 2, differ, rp.surround || rn.surround || r0.surround, rp.stereo_smp,
+	       c.rate, c.interp);
 	free(rp.pcm);
 	free(rn.pcm);
 	free(r0.pcm);
